@@ -177,6 +177,20 @@ def check_crate(fx, rep, crate, cn):
                     ok = False
                     det['none_outside_none_edge'] = C.where(pn, b, i)
             # the Some edge must not reach a return without building a reply or re-polling
+        if not ok and not none_sites and not lagging:
+            # combinator form: `inner.poll_next(cx).map(|item| item.map(build_reply))` - Poll::map and Option::map hand a None through
+            # unchanged and produce none of their own
+            for b, t in pn.iter_terms('call'):
+                if b in region and t['callee'].get('name') == 'map' and t['args'] and 'Poll' in ((op_place(t['args'][0]) or {}).get('ty') or ''):
+                    src = pn.trace(t['args'][0])
+                    clo = pn.trace(t['args'][1]) if len(t['args']) > 1 else {}
+                    if src.get('kind') == 'call' and src.get('block') == pb and clo.get('kind') == 'aggr' and clo['rv'].get('kind') == 'closure':
+                        cbody = crate.by_path.get(clo['rv'].get('def'))
+                        inner_maps = [(bb, tt) for bb, tt in cbody.iter_terms('call') if tt['callee'].get('name') == 'map' and 'Option' in ((op_place(tt['args'][0]) or {}).get('ty') or '')] if cbody else []
+                        nones = [1 for bb, ii, ss in (cbody.iter_assigns() if cbody else []) if ss['rv']['k'] == 'aggr' and ss['rv'].get('variant') == 'None']
+                        if len(inner_maps) == 1 and not nones and inner_maps[0][1]['dest']['l'] == 0 and cbody.trace(inner_maps[0][1]['args'][0]).get('kind') == 'arg':
+                            ok = True
+                            det['combinator_form'] = 'Poll::map(Option::map(..))'
         rep.check(ok, 'R20.2', '%s|%s|end-of-stream-only-on-inner-none' % (cn, pn.path), C.where(pn, pb),
                   'Ready(None) in the broadcast arm is produced only under the inner item\'s None discriminant',
                   'the broadcast arm does not decide end-of-stream by an explicit test of the inner item (accepted idiom: match on the item with a None arm): '
